@@ -490,7 +490,7 @@ namespace occa {
                               const occa::memory src,
                               const occa::json &props) {
     memory mem = malloc(entries, dtype, NULL, props);
-    if (entries && src.size()) {
+    if (entries && src.byte_size()) {
       mem.copyFrom(src);
     }
     return mem;
